@@ -201,13 +201,14 @@ def h_transparent(t, part):
         log = []
 
         def mk(tag, ret=None):
+            # (the WSGI environ is logged as the handler sees it at that moment: a copy)
             if asyncio_:
                 async def f(sid, *a):
-                    log.append((tag, norm_sid(sid), a))
+                    log.append((tag, norm_sid(sid), tuple(dict(x) if isinstance(x, dict) else x for x in a)))
                     return ret
             else:
                 def f(sid, *a):
-                    log.append((tag, norm_sid(sid), a))
+                    log.append((tag, norm_sid(sid), tuple(dict(x) if isinstance(x, dict) else x for x in a)))
                     return ret
             return f
         names = {}
@@ -222,7 +223,9 @@ def h_transparent(t, part):
             instrument(w, False, part['mode'], part['read_only'], namespace=adm)
         es = ['e0', 'e1']
         for e in es + ['a0']:
-            w.open(e)
+            # a handshake as a browser sends it: credentials in the headers, which the application may read at any time
+            w.open(e, {'E': e, 'REMOTE_ADDR': '10.0.0.7', 'HTTP_USER_AGENT': 'ua', 'HTTP_COOKIE': 'session=' + e,
+                       'HTTP_AUTHORIZATION': 'Bearer ' + e, 'QUERY_STRING': 'EIO=4&transport=polling', 'wsgi.url_scheme': 'https'})
         if instrumented and with_admin:
             w.connect('a0', adm)
         live = {}
@@ -277,7 +280,9 @@ def h_transparent(t, part):
         rooms = {e: sorted(map(str, w.s.rooms(live[e]))) if live[e] else None for e in es}
         rooms = {e: [names.get(r, r) for r in v] if v else v for e, v in rooms.items()}
         log = [(a, names.get(b, b), c) for a, b, c in log]
-        return dict(packets=view, handlers=log, callbacks=cbs, rooms=rooms, contained=[repr(c[1]) for c in w.eio.contained])
+        environs = {e: dict(w.s.get_environ(live[e]) or {}) if live[e] else None for e in es}
+        return dict(packets=view, handlers=log, callbacks=cbs, rooms=rooms, contained=[repr(c[1]) for c in w.eio.contained],
+                    environ=environs)
 
     def rename(d, names):
         if isinstance(d, dict):
@@ -291,7 +296,7 @@ def h_transparent(t, part):
         inst = run(True)
     t.reached('transparent')
     t.note(plan)
-    for key in ('packets', 'handlers', 'callbacks', 'rooms', 'contained'):
+    for key in ('packets', 'handlers', 'callbacks', 'rooms', 'contained', 'environ'):
         if not (plain[key] == inst[key]):
             return Fail('admin:visible:%s' % key, 'plan %r\nplain        %r\ninstrumented %r' % (plan, plain[key], inst[key]))
     return None
